@@ -341,7 +341,7 @@ func runInterp(c *engine.Ctx, focus string) {
 	} else {
 		doc = o.Pipeline()
 	}
-	src, format := gen.Render(p, doc, true)
+	src, format := gen.RenderMaybeMerged(p, doc, true)
 	c.Ev("doc", format, len(src), tape.HashString(string(src)))
 
 	parse := func() *pipeline.Pipeline {
